@@ -68,6 +68,7 @@ fn main() {
             "glob" => misc::glob_case(&sc),
             "regex" => misc::regex_case(&sc),
             "model" => misc::model_case(&sc),
+            "timeout" => misc::timeout_case(&sc),
             _ => {
                 eprintln!("unknown command {cmd}");
                 std::process::exit(2);
